@@ -120,7 +120,7 @@ PROPS = {
         "chain": [chain("query", 32, 20, 400, 35)],
         "corpus": ["witness", "regress", "known"],
         "relevant": rel_kinds(("I", "K", "B", "E", "Q"), lambda k: True),
-        "level_text": "Proof: c20_pages_partition_by_key (for every store section, filter and limit 1 <= L < 2^64 - 1 (at query.MaxLimit = 2^64 - 1 the SDK's `end+1` wraps and the first page may be cut short: modelled and exhibited, the walk still completes), following next_key from a first request without key returns every matching entry exactly once, in store order, and nothing else: unbounded in the number of entries and pages), c20_pages_partition_by_offset (+ drop_take_partition), c20_key_and_offset_rejected, c20_pages_partition_by_key_reverse (the same for reverse walks), c20_purchase_orders_walk, c20_wrkchains_walk, c20_beacons_walk, c20_streams_walk (also the by-sender list), c20_streams_by_receiver_walk (instances for every list query in every reachable state; the stream lists for addresses of any byte lengths), c20_listed_*_eq_point_query, c20_queries_do_not_modify_state.",
+        "level_text": "Proof: c20_pages_partition_by_key (for every store section, filter and limit 1 <= L < 2^64 - 1 (and at query.MaxLimit = 2^64 - 1, where the SDK's `end+1` wraps and the first page may be cut short: c20_pages_partition_by_key_max_limit shows the forward walk still complete; the reverse walk can end in an error there: known finding, negation witness c20_reverse_walk_at_max_limit_fails), following next_key from a first request without key returns every matching entry exactly once, in store order, and nothing else: unbounded in the number of entries and pages), c20_pages_partition_by_offset (+ drop_take_partition), c20_key_and_offset_rejected, c20_pages_partition_by_key_reverse (the same for reverse walks), c20_purchase_orders_walk, c20_wrkchains_walk, c20_beacons_walk, c20_streams_walk (also the by-sender list), c20_streams_by_receiver_walk (instances for every list query in every reachable state; the stream lists for addresses of any byte lengths), c20_listed_*_eq_point_query, c20_queries_do_not_modify_state.",
         "level_note": "Theorems are about Paginate.filtered, the transcription of the SDK's FilteredPaginate / GenericFilteredPaginate / Paginate (types/query, v0.47.13: trusted transcription, validated by the correspondence), and about the list queries of the four modules built on it (Model/Query.lean). The tie is differential: every list query of the real app through ABCI Query (gRPC route) with generated page requests - complete key walks, offset walks, count_total, reverse, key+offset, absent and upper-case filters - vs. the compiled model, after every block; the harness also compares every listed item with its point query (pm must be 0). Store iteration order (ascending bytes) is the IAVL contract and is assumed; reverse iteration is covered by the correspondence only.",
         "assumptions": ["store iteration is ascending byte order (IAVL contract)", "address bytes are 20 bytes and distinct per address (stream and whitelist sections)", "EntQ for the purchase-order instance"],
     },
